@@ -367,7 +367,7 @@ StateVector =
         """
         from .orbit import Orbit
 
-        new_dict = self._data.copy()
+        new_dict = self.copy()._data
         new_dict["propagator"] = propagator
         return Orbit(self.base, **new_dict)
 
